@@ -8,7 +8,7 @@ LEVEL = "proof"
 
 def run(ctx, out):
     dcheck.run_property(ctx, out, "C11", "mon_c11_all", n_quick=250, n_thorough=4000,
-                        gen_kw=dict(ws_share=0.35, batches=0.05, malformed=0.06, victims=2, accept_faults=True, timers=True),
-                        directed=directed.regressions())
+                        gen_kw=dict(ws_share=0.35, batches=0.05, malformed=0.06, victims=2, accept_faults=True, timers=True, faults=True),
+                        directed=directed.regressions() + directed.accept_queue() + directed.faulty_caller())
     out.assumptions += ["faulty peers in the differential family are subscribers/bystanders (their own requests would legitimately change the history); "
                         "a faulty OWNER is covered by the directed F30 scenarios and the C03 monitor"]
